@@ -174,8 +174,8 @@ def _convert_ifexp(node: ast.IfExp) -> libsbml.ASTNode:
     false = _convert_node(node.orelse)
 
     sbml_node = libsbml.ASTNode(libsbml.AST_FUNCTION_PIECEWISE)
-    sbml_node.addChild(condition)
     sbml_node.addChild(true)
+    sbml_node.addChild(condition)
     sbml_node.addChild(false)
     return sbml_node
 
